@@ -75,8 +75,12 @@ def c14_extra(tier, seed, harness, problems, stats, build_harness):
 
 
 _MODEL_LIMITS = (
-    "What is PROVED is a statement about the abstract Prog model (lean/UF/Model/Prog.lean): for every schedule of "
-    "its atomic actions (any number of threads, any length) every finished query returns the stateless answer. "
+    "What is PROVED is a statement about the Prog state machine (lean/UF/Model/Prog.lean: rule cache, request pool, "
+    "per-object lazy-compile cells read by Match, ruleIn, explicit crash outcome) -- for every schedule of its atomic "
+    "actions (any number of threads, any length) no thread crashes and every finished query returns the stateless "
+    "answer -- and, in Props/C14Engine.lean, the same with the environment instantiated by the engine models built "
+    "from the bytes of the lists (lookup tables of C01/C02, NetworkRule.Match, storage retrieval of C11), where the "
+    "stateless answer IS Engine.matchAll / DnsEngine.matchRequest. "
     "Outside the model and NOT proved: the Go memory model and scheduler, sync.Mutex/RWMutex, sync.Pool "
     "(syncutil.Pool), os.File and regexp internals, and that one critical section of the code is one atomic action "
     "(that granularity is an assumption, compared on every run with the lock table extracted from the source by "
@@ -92,9 +96,13 @@ PROPS = {
                 "`c13model` line replaying the abstract trace (candidate indices observed on fresh spying engines, match bits, "
                 "observed answers and RuleStorage.GetCacheSize()) on the Lean Prog model; distinct by hash of the line; "
                 "non-trivial = not the empty answer",
-        "explanation": "Theorems are about the Prog/Pool models; the tie to the Go code is the generated field facts "
-                       "(Facts.requestFields = Facts.requestAssignedOnRefill = the model's field list), and the differential "
-                       "histories. sync.Pool, regexp and the Go runtime are modelled, not verified.",
+        "explanation": "Theorems are about the Prog/Pool state machine (Props/C13.lean: any environment) and about its "
+                       "instance with the engine models built from the bytes of the lists (Props/C13Engine.lean: the stateless "
+                       "answer is Engine.matchAll / DnsEngine.matchRequest with group D's storage in any reachable cache state); "
+                       "the lazy-compile cell of a rule object is READ by Match and proved to be a function of the rule. The tie "
+                       "to the Go code is the generated field facts (Facts.requestFields = Facts.requestAssignedOnRefill = the "
+                       "model's field list), and the differential histories (the abstract trace carries each rule's "
+                       "preparePattern status). sync.Pool, regexp and the Go runtime are modelled, not verified.",
     },
     "C14": {
         "families": [fam("c14sc", 40, 400, seeds=4)],
@@ -116,7 +124,13 @@ PROPS = {
                 "(linear-scan oracle) and are a subset of the fault-free retrieval, rules retrieved before k still served; plus one "
                 "`c19model` line: the Prog model with the lists closed at the same point must predict the degraded answers and "
                 "cache sizes exactly",
-        "explanation": "Theorems are about the Prog model with the fault action `close listId`; os.File behaviour after Close "
-                       "(every Seek/Read fails) is an assumption checked only by the differential runs.",
+        "explanation": "Theorems are about the Prog state machine with the fault action `close listId` and an explicit crash "
+                       "outcome: the nil checks of the three tables are branches of the machine (with one removed a crash is "
+                       "reachable: c19_nil_check_needed), no schedule of queries and close events reaches crash, every returned "
+                       "rule is genuine and matches; Props/C19Engine.lean states the same for the engine models built from the "
+                       "bytes of the lists. Under faults the host part of a DNS answer is compared with what the hosts table "
+                       "holds for the name (an unreadable deciding network rule lets MatchRequest fall through to the hosts "
+                       "table). os.File behaviour after Close (every Seek/Read fails) is an assumption checked only by the "
+                       "differential runs.",
     },
 }
